@@ -295,5 +295,10 @@ def replay(ctx, rp):
     obs = []
     for (t, dh, dm, o, _) in X.run_history(q, h):
         obs.append({"formula": X.pretty_tree(t), "impl": o})
-        fs += X.judge_eval(ID, t, dh, o)
+        for f1 in X.judge_eval(ID, t, dh, o):
+            f1["history"] = h          # a failure re-found from a corpus file stays replayable
+            prefix = [st for st in h if st[0] != "eval"]
+            if prefix:
+                f1["input"] += "  with " + X.describe_prefix(prefix)
+            fs.append(f1)
     return {"fails": bool(fs), "history": h, "impl": obs, "failures": fs}
